@@ -548,3 +548,26 @@ def runtime_arg_text(rng: random.Random) -> str:
     else:
         text = head + "def act(v, w):\n    " + body + "\nact(v, w)\nact(1, 2.5)\n"
     return PREAMBLE + text
+
+
+def helper_chain(rng: random.Random) -> str:
+    """n helpers, each calling the previous one, with a parameter that is re-typed inside (int argument concatenated
+    with a string): translating the chain must stay linear in n."""
+
+    n = rng.choice([8, 16, 26, 40])
+    kind = rng.choice(["str", "float", "mixed"])
+    lines = []
+    if kind == "str":
+        lines += ["def f0(v):", '    return "v=" + v']
+    elif kind == "float":
+        lines += ["def f0(v):", "    return v * 0.5"]
+    else:
+        lines += ["def f0(v):", "    if v:", '        return "a" + v', "    return v"]
+    for k in range(1, n):
+        if rng.random() < 0.2:
+            lines += [f"def f{k}(v):", f"    t = f{k - 1}(v)", "    return t + v"]
+        else:
+            lines += [f"def f{k}(v):", f"    return f{k - 1}(v) + v"]
+    lines.append(f"msg = f{n - 1}({rng.choice(['7', '1.5', chr(34) + 'q' + chr(34), 'True'])})")
+    lines.append("mon.write(msg)")
+    return PREAMBLE + "\n".join(lines) + "\n"
